@@ -14,7 +14,7 @@ SELECTORS = ['a', 'a:hover', 'a::before', '@media (min-width: 1px)', 'a[t="}"]',
 DECLS = [('b', 'c'), ('b', 'c d'), ('$v', '1px'), ('--x', 'y'), ('b', '"x;y{}"'), ('b', 'url(a)'), ('b', 'c /* ; */ d')]
 DECLS_PAREN = [('b', 'url(a;b)'), ('b', 'f({)')]
 COMMENT = '/* } ; : { */'
-LAYOUTS = ('compact', 'spaced', 'space-before-semicolon')
+LAYOUTS = ('compact', 'spaced', 'space-before-semicolon', 'comment-before-semicolon')
 # extended declaration menu for the action helpers (C17): value tokens recorded
 DECLS_TOKENS = [
     ('b', '1px solid red', [(0, 3), (4, 9), (10, 13)]),
@@ -106,6 +106,8 @@ def emit(shape, rotation=0, layout='compact', decls=None, last_without_semicolon
             else:
                 if layout == 'space-before-semicolon':
                     w(' ')
+                elif layout == 'comment-before-semicolon':
+                    w(' /* } */ ')
                 rec['semicolon'] = pos[0]
                 w(';')
                 rec['start'], rec['end'] = s, pos[0]
